@@ -1,0 +1,13 @@
+//go:build verif
+// +build verif
+
+// Verification hook for the block store check (add-only, compiled only with -tags verif): install a
+// harness-built pool (see VerifNewTxPool) as the process-wide transaction pool, so that the chain
+// initialisation picks it up. A process restart is simulated by installing a fresh pool object (empty
+// pending list and evicted cache) over the same executed-transaction store.
+package service
+
+// VerifBCSetTxPool makes p the pool returned by GetTransactionPool().
+func VerifBCSetTxPool(p TransactionPool) {
+	txpoolInstance = p
+}
